@@ -215,6 +215,7 @@ class Path:
         self.clock = []      # symbols returned by current_time_millis, in order
         self.objs = {}       # object id -> {path tuple -> Value}
         self.tainted_reads = []
+        self.acc = {}        # (accessor, receiver obj, receiver path) -> Value   (pure accessors of trait objects)
 
 
 class Frame:
@@ -224,8 +225,9 @@ class Frame:
 
 
 class Explorer:
-    def __init__(self, funcs, consts, inline=(), max_visits=1, max_paths=4000, stop_calls=(), log=None):
+    def __init__(self, funcs, consts, inline=(), max_visits=1, max_paths=4000, stop_calls=(), log=None, pure_accessors=()):
         self.funcs, self.consts = funcs, consts
+        self.pure_accessors = set(pure_accessors)
         self.inline = set(inline)
         self.max_visits, self.max_paths = max_visits, max_paths
         self.stop_calls = tuple(stop_calls)
@@ -661,6 +663,7 @@ class Explorer:
         nst.trail = list(st.trail)
         nst.clock = list(st.clock)
         nst.objs = {k: dict(v) for k, v in st.objs.items()}
+        nst.acc = dict(st.acc)
         nfr = []
         for fr in frames:
             n = Frame(fr.func, {k: (Tup(list(v.items)) if isinstance(v, Tup) else v) for k, v in fr.locals.items()}, fr.dest, fr.ret_block)
@@ -808,6 +811,12 @@ class Explorer:
                 elif short in ("get_record", "get_record_mut") and len(args) == 1 and isinstance(args[0], Ref):
                     # pure accessor of the trait object: same receiver -> same record object
                     rv = Ref(("record-of", args[0].obj, args[0].path), ())
+                elif short in self.pure_accessors and len(args) == 1 and isinstance(args[0], Ref) and dest and re.fullmatch(r"_\d+", dest.strip()):
+                    # pure scalar accessor of a trait object: one symbol per (accessor, receiver)
+                    key = (short, args[0].obj, args[0].path)
+                    if key not in st.acc:
+                        st.acc[key] = fresh_of_type(fr.func.local_types.get(dest.strip(), "u64"), "acc." + short, False)
+                    rv = st.acc[key]
                 elif short == "current_time_millis":
                     rv = BV(z3.BitVec(f"now!{len(st.clock)}!{next(_fresh)}", 64), 64)
                     if st.clock:
